@@ -66,13 +66,16 @@ def load_utils():
     """Import the library under test.  If the environment variable VKB_PATCH
     names a python file it is exec'd with `utils` bound to sempler.utils (used
     only to sanity-check that the harnesses notice a planted bug)."""
+    global _PATCHED
     import sempler.utils as utils
     patch = os.environ.get("VKB_PATCH")
-    if patch:
+    if patch and not _PATCHED:          # once per process, also when several harness modules are imported
+        _PATCHED = True
         exec(compile(open(patch).read(), patch, "exec"), {"utils": utils, "np": np})
     return utils
 
 
+_PATCHED = False
 CALL_TIMEOUT_S = 30.0
 _ALARM_READY = None
 
@@ -337,3 +340,115 @@ def safe_samples(fn):
         return fn()
     except Exception as e:      # noqa: BLE001
         return [{"error": "sample generation failed: %s: %s" % (type(e).__name__, short(str(e), 200))}]
+
+
+# ----------------------------------------------------------------------------
+# helpers of the model / sampling harnesses (C01, C02, C13, C14, C17, C19)
+
+
+def load_sempler():
+    """Import the whole library (stand-in R backend on sys.path first, so that
+    sempler.semi loads) and apply VKB_PATCH exactly as load_utils does."""
+    fake = os.path.join(os.path.dirname(os.path.dirname(os.path.abspath(__file__))), "fake_rpy2")
+    if fake not in sys.path:
+        sys.path.insert(0, fake)
+    import sempler
+    import sempler.generators  # noqa: F401
+    import sempler.noise  # noqa: F401
+    import sempler.functions  # noqa: F401
+    load_utils()
+    return sempler
+
+
+def freeze(v):
+    """Hashable, exactly comparable image of a value (arrays by dtype, shape and bytes)."""
+    if isinstance(v, np.ndarray):
+        if v.dtype == object:
+            return ("objarray", v.shape, tuple(freeze(x) for x in v.reshape(-1)))
+        return ("ndarray", str(v.dtype), v.shape, np.ascontiguousarray(v).tobytes())
+    if isinstance(v, (set, frozenset)):
+        return ("set", tuple(sorted((freeze(x) for x in v), key=repr)))
+    if isinstance(v, dict):
+        return ("dict", tuple(sorted(((freeze(k), freeze(x)) for k, x in v.items()), key=repr)))
+    if isinstance(v, (list, tuple)):
+        return (type(v).__name__, tuple(freeze(x) for x in v))
+    if isinstance(v, np.generic):
+        return ("npscalar", str(v.dtype), v.tobytes())
+    if isinstance(v, float):
+        return ("float", v.hex())
+    if v is None or isinstance(v, (bool, int, str)):
+        return (type(v).__name__, v)
+    return ("object", id(v))
+
+
+def arrays_in(v, out=None):
+    """All ndarrays reachable through lists / tuples / dicts / object arrays / attributes mean, covariance."""
+    if out is None:
+        out = []
+    if isinstance(v, np.ndarray):
+        if v.dtype == object:
+            for x in v.reshape(-1):
+                arrays_in(x, out)
+        else:
+            out.append(v)
+    elif isinstance(v, (list, tuple, set, frozenset)):
+        for x in v:
+            arrays_in(x, out)
+    elif isinstance(v, dict):
+        for k, x in v.items():
+            arrays_in(k, out)
+            arrays_in(x, out)
+    elif hasattr(v, "mean") and hasattr(v, "covariance") and not isinstance(v, np.generic):
+        arrays_in(v.mean, out)
+        arrays_in(v.covariance, out)
+    return out
+
+
+def scribble(v):
+    """Overwrite a returned object in place (12345 everywhere)."""
+    if isinstance(v, np.ndarray):
+        if v.dtype == object:
+            for x in v.reshape(-1):
+                scribble(x)
+        elif v.flags.writeable and v.size:
+            if v.dtype == bool:
+                v[...] = ~v
+            else:
+                with np.errstate(all="ignore"):
+                    v[...] = np.full(v.shape, 12345).astype(v.dtype, casting="unsafe")
+    elif isinstance(v, list):
+        for x in v:
+            scribble(x)
+        v.append(12345)
+    elif isinstance(v, tuple):
+        for x in v:
+            scribble(x)
+    elif isinstance(v, set):
+        v.add(12345)
+    elif isinstance(v, dict):
+        for x in v.values():
+            scribble(x)
+        v[12345] = 12345
+    elif hasattr(v, "mean") and hasattr(v, "covariance") and not isinstance(v, np.generic):
+        scribble(v.mean)
+        scribble(v.covariance)
+
+
+def shares(result, others):
+    """True iff an array inside `result` overlaps an array inside `others`."""
+    rs, os_ = arrays_in(result), arrays_in(others)
+    return any(np.shares_memory(a, b) for a in rs for b in os_)
+
+
+def same_array(a, b):
+    return (isinstance(a, np.ndarray) and isinstance(b, np.ndarray) and a.dtype == b.dtype and a.shape == b.shape
+            and np.ascontiguousarray(a).tobytes() == np.ascontiguousarray(b).tobytes())
+
+
+def perturb_global_rng(k=0):
+    """Unrelated random activity between two calls (C13 / C19 histories)."""
+    np.random.seed(123 + k)
+    np.random.normal(size=7 + k)
+    np.random.default_rng().uniform()
+    np.random.default_rng(5 + k).permutation(4)
+    np.random.uniform(size=k % 3)
